@@ -52,8 +52,37 @@ def check_case(ctx, L, ex):
                 return
 
 
+LONG_INT_LISTS = [("TPML_CC", "count", "commandCodes", "TPM_CC"), ("TPML_ALG", "count", "algorithms", "TPM_ALG_ID"), ("TPML_HANDLE", "count", "handle", "TPM_HANDLE"), ("TPML_ECC_CURVE", "count", "eccCurves", "TPM_ECC_CURVE")]
+
+
+def long_list_faults(ctx, L):
+    """Lists of 64..260 constrained integers with a bad element at the first, second, a middle, the last but one and the last
+    position (a decoder that handles long integer lists in bulk must still emit the earlier elements first)."""
+    from ..gen import Case
+
+    k = 0
+    for tname, cname, lname, etype in LONG_INT_LISTS:
+        if tname not in L.snap["structs"] or L.struct(tname)["fields"] != [[cname, "UINT32"], [lname, f"list[{etype}]"]]:
+            continue
+        valid = [v for lo, hi in L.allowed(etype) for v in (lo, hi)]
+        outs = L.outside_values(etype)
+        for n in (64, 65, 130, 260):
+            k += 1
+            if k % ctx.nshards != ctx.shard:
+                continue
+            toks = [["", tname, "..."], [f".{cname}", "UINT32", n], [f".{lname}", f"list[{etype}]", "..."]]
+            toks += [[f".{lname}[{i}]", etype, valid[i % len(valid)]] for i in range(n)]
+            case = Case(tname, toks, L)
+            for pos in sorted({0, 1, n // 2, n - 2, n - 1}):
+                for bad in (outs[0], outs[-1]):
+                    if not one(ctx, L, case, {3 + pos: bad}, "outside"):
+                        return
+            ctx.count("long-integer-lists")
+
+
 def run_shard(ctx):
     L = layout()
+    ctx.run_plain(lambda: long_list_faults(ctx, L), "long-int-lists")
     body = lambda ex: check_case(ctx, L, ex)  # noqa: E731
     q = ctx.quick()
     for name, strat, n in (
